@@ -421,6 +421,30 @@ func runOrder(k orderCase, r *engine.Report) (string, string) {
 			return "reinit-skip-storage:old-root-returned", fmt.Sprintf("[%s] stored windows as ranks cur=%d..%d next=%d..%d now=%d: reinitialization was requested (with skip-storage) and a previously stored root came back", k.Config, k.Ranks[0], k.Ranks[1], k.Ranks[2], k.Ranks[3], k.Ranks[4])
 		}
 		r.Branch("order:reinit-skip-storage")
+		// the same call without reinitialization, once under skip-storage and
+		// once with a storage wrapper: whatever it decides, the roots it returns
+		// carry their slot's label
+		for _, variant := range []string{"skip-storage", "storage-wrapper"} {
+			st2, _ := inmem.New(harness.Ctx)
+			o2 := k.Config.opts()
+			if variant == "storage-wrapper" {
+				o2 = append(o2, nodeenrollment.WithStorageWrapper(harness.Wrapper("c08-labels", 1)))
+				if err := proto.Clone(pre).(*types.RootCertificates).Store(harness.Ctx, st2, o2...); err != nil {
+					panic(err)
+				}
+			} else {
+				o2 = append(o2, nodeenrollment.WithSkipStorage(true))
+				if err := pre.Store(harness.Ctx, st2); err != nil {
+					panic(err)
+				}
+			}
+			setClock(k.Config, at(k.Ranks[4]))
+			if ret, err := rotation.RotateRootCertificates(harness.Ctx, st2, o2...); err == nil && ret != nil && ret.Current != nil && ret.Next != nil {
+				if ret.Current.Id != string(nodeenrollment.CurrentId) || ret.Next.Id != string(nodeenrollment.NextId) {
+					return "labels:" + variant, fmt.Sprintf("[%s] stored windows as ranks cur=%d..%d next=%d..%d now=%d, call with %s: the returned roots are labelled current=%q next=%q", k.Config, k.Ranks[0], k.Ranks[1], k.Ranks[2], k.Ranks[3], k.Ranks[4], variant, ret.Current.Id, ret.Next.Id)
+				}
+			}
+		}
 	}
 	// the same stored roots, but this call cannot read them: it may not take
 	// "unreadable" for "missing" - it must fail and leave storage as it is
